@@ -29,7 +29,8 @@ EXPLANATION = ('theorems C11_* (coq/props/C11.v), for every table and key choice
                'on every run, evaluated inside Coq')
 TRUSTED = ['modelled, not verified: dictable construction / concat / dict_concat plumbing (column order is observed up to sorting), CPython sorted() is stable',
            'the theorems are about the Gallina model (M_group.v); its agreement with _dictable.py is what the correspondence checks']
-ASSUMPTIONS = ['+-inf key cells are one key together with NaN, by library design (cmp ranks nan and +-inf alike: `is_nan` documents "nan or inf"); they are not generated',
+ASSUMPTIONS = ['groupby: the name of the column of sub-tables (grp=, default \'grp\') is not the name of a KEY column - the key table cannot hold both, the unchanged code silently overwrites the key column (proposed repair: fixes/C11.patch raises ValueError); VALUE columns of that name are generated and must survive ungroup',
+               '+-inf key cells are one key together with NaN, by library design (cmp ranks nan and +-inf alike: `is_nan` documents "nan or inf"); they are not generated',
                'datetime, pd.Timestamp and np.datetime64 cells of equal value are one key (generated in the dates columns)', 'ints are exact at any size (adjacent ints beyond 2^53, 10**30 and float(2**53) are in the key pools); cells are scalars; keys are grouped with cmp(...) == 0 as /repo does since 9228ab2 (any two NaN are one key)', 'key columns are distinct existing names',
                'pivot: y values are strings, ints or half-integer floats whose labels do not collide with x column names or each other; unpivot is not observed for float y; table non-empty']
 EXHAUSTIVE = {'quick': False, 'thorough': False}
@@ -342,6 +343,15 @@ def gen_cases(rng, tier):
             c = {'kind': kind, 'cols': cols, 'by': by}
             if by and rng.random() < 0.2: c['bylist'] = True
             if kind == 'groupby' and rng.random() < 0.2: c['grp'] = 'g2'
+            other = [x for x in names if x not in by]
+            if kind == 'groupby' and other and rng.random() < 0.25:
+                # a VALUE column named like the column of sub-tables: 'grp' with the default, or the name passed as grp=
+                g = rng.choice(['grp', 'grp', 'sub', 'g2'])
+                if g not in names:
+                    o = rng.choice(other)
+                    c['cols'] = [[g if x == o else x, cells] for x, cells in cols]
+                    if g != 'grp': c['grp'] = g
+                    elif 'grp' in c: del c['grp']
             cases.append(c)
     for _ in range(800 if q else 9000):
         cases.append(rand_pivot(rng, tier))
